@@ -123,7 +123,11 @@ func (mv *MessageView) SnapshotRequest(req *http.Request) error {
 	}
 	req.Body.Close()
 
-	if mv.chunked {
+	// A message without a body (http.NoBody: e.g. a 304 or the answer to a HEAD
+	// request) has no chunks either, whatever its Transfer-Encoding header says.
+	chunked := mv.chunked && !nobody
+
+	if chunked {
 		cw := httputil.NewChunkedWriter(buf)
 		cw.Write(data)
 		cw.Close()
@@ -141,7 +145,7 @@ func (mv *MessageView) SnapshotRequest(req *http.Request) error {
 
 	if req.Trailer != nil {
 		req.Trailer.Write(buf)
-	} else if mv.chunked {
+	} else if chunked {
 		fmt.Fprint(buf, "\r\n")
 	}
 
@@ -198,7 +202,11 @@ func (mv *MessageView) SnapshotResponse(res *http.Response) error {
 	}
 	res.Body.Close()
 
-	if mv.chunked {
+	// A message without a body (http.NoBody: e.g. a 304 or the answer to a HEAD
+	// request) has no chunks either, whatever its Transfer-Encoding header says.
+	chunked := mv.chunked && !nobody
+
+	if chunked {
 		cw := httputil.NewChunkedWriter(buf)
 		cw.Write(data)
 		cw.Close()
@@ -216,7 +224,7 @@ func (mv *MessageView) SnapshotResponse(res *http.Response) error {
 
 	if res.Trailer != nil {
 		res.Trailer.Write(buf)
-	} else if mv.chunked {
+	} else if chunked {
 		fmt.Fprint(buf, "\r\n")
 	}
 
